@@ -40,7 +40,36 @@ def plan(tier):
                     "entries_composite_param": 2_000, "kw_params_checked": 300, "kw_dependent_params_checked": 100}}
 
 
+def _gen_keyed_group(rng):
+    """>= 4 methods in one rank keyed by disjoint Literals on the first position; some carry a second value
+    condition on the next position; the last position trades off (a narrower class where the condition is missing)
+    so that nobody dominates; a low-priority catch-all"""
+    n = rng.randint(4, 7)
+    keys = rng.sample([0, 1, 2, 3, 4, 7, 1000] if rng.random() < 0.6 else ["a", "ab", "b", "c", "d", "e", "f"], n)
+    seconds = [["L", 0], ["L", "a"], ["L", 1, 2], ["D", "int", "even"], ["D", "object", "truthy"], ["D", "int", "ge3"]]
+    methods = []
+    for i, k in enumerate(keys):
+        if rng.random() < 0.45:
+            pos = [["L", k], rng.choice(seconds), "object"]
+        else:
+            pos = [["L", k], "object", rng.choice(["int", "MyInt", "int", "object"])]
+        methods.append({"mid": i, "pos": [{"n": f"a{j}", "t": t} for j, t in enumerate(pos)], "kw": [], "prio": 0,
+                        "kind": rng.choice(["leaf", "leaf", "next"])})
+    methods.append({"mid": n, "pos": [{"n": f"a{j}", "t": "object"} for j in range(3)], "kw": [], "prio": -1, "kind": "leaf"})
+    if rng.random() < 0.5:
+        rng.shuffle(methods)
+        for i, m in enumerate(methods):
+            m["mid"] = i
+    firsts = [["v", k] for k in keys] + [["v", 5], ["v", "zz"]]
+    mids = [["v", 0], ["v", 1], ["v", 2], ["v", 3], ["v", 4], ["v", "a"], ["v", "b"], ["v", ""], ["v", None]]
+    lasts = [["v", 1], ["mi", 2], ["v", "s"], ["v", 2.5]]
+    calls = [{"pos": [rng.choice(firsts), rng.choice(mids), rng.choice(lasts)], "kw": {}} for _ in range(60)]
+    return {"hier": [], "methods": methods, "npos": 3, "calls": calls, "keyed_group": True}
+
+
 def gen_case(rng, params, idx):
+    if idx % 6 == 5:
+        return _gen_keyed_group(rng)
     hier = gen.gen_hierarchy(rng, rng.randint(2, 5), attrs=True)
     classes = [s["name"] for s in hier]
     npos = rng.choice([1, 2, 2, 3])
@@ -88,6 +117,8 @@ def check_case(spec, res):
         res.count("unbuildable_" + type(e).__name__)
         return
     res.count("programs")
+    if spec.get("keyed_group"):
+        res.count("keyed_group_programs")
     res.sample({k: spec[k] for k in ("hier", "methods", "npos")} | {"calls": spec["calls"][:3]})
     by = {m["mid"]: m for m in spec["methods"]}
     state = {"call": None, "first": True}
